@@ -38,7 +38,8 @@ enum Spec {
     Lin(i64, i64),  // m * k + c  (int64)
     LinNull(i64, i64, i64), // m * k + c, NULL when k % p == 0
     Null,           // all NULL (int64)
-    Join(i64),      // 1000 + k for k % m == 0, NULL otherwise (rows of the join's right side)
+    Join(i64),      // "j<k>" (utf8) for k % m == 0, NULL otherwise (rows of the join's right side; the hash joiner
+                    // fills NULLs only for the types the legacy format could store as null)
     Str,            // "s<k>" (utf8), NULL when k % 5 == 4
 }
 #[derive(Clone, Debug, PartialEq, PartialOrd)]
@@ -47,13 +48,16 @@ enum Cell {
     S(Option<String>),
 }
 impl Spec {
+    fn is_str(&self) -> bool {
+        matches!(self, Spec::Str | Spec::Join(_))
+    }
     fn at(&self, k: i64) -> Cell {
         match self {
             Spec::Key => Cell::I(Some(k)),
             Spec::Lin(m, c) => Cell::I(Some(m * k + c)),
             Spec::LinNull(m, c, p) => Cell::I(if k % p == 0 { None } else { Some(m * k + c) }),
             Spec::Null => Cell::I(None),
-            Spec::Join(m) => Cell::I(if k % m == 0 { Some(1000 + k) } else { None }),
+            Spec::Join(m) => Cell::S(if k % m == 0 { Some(format!("j{k}")) } else { None }),
             Spec::Str => Cell::S(if k % 5 == 4 { None } else { Some(format!("s{k}")) }),
         }
     }
@@ -86,14 +90,14 @@ struct Tbl {
 }
 
 fn arrow_schema(cols: &[Col]) -> Arc<ArrowSchema> {
-    Arc::new(ArrowSchema::new(cols.iter().map(|c| Field::new(&c.name, if c.spec == Spec::Str { DataType::Utf8 } else if c.int32 { DataType::Int32 } else { DataType::Int64 }, c.nullable)).collect::<Vec<_>>()))
+    Arc::new(ArrowSchema::new(cols.iter().map(|c| Field::new(&c.name, if c.spec.is_str() { DataType::Utf8 } else if c.int32 { DataType::Int32 } else { DataType::Int64 }, c.nullable)).collect::<Vec<_>>()))
 }
 fn batch(cols: &[Col], keys: &[i64]) -> RecordBatch {
     let arrays: Vec<Arc<dyn Array>> = cols
         .iter()
         .map(|c| -> Arc<dyn Array> {
             let cells: Vec<Cell> = keys.iter().map(|k| c.spec.at(*k)).collect();
-            if c.spec == Spec::Str {
+            if c.spec.is_str() {
                 Arc::new(StringArray::from(cells.iter().map(|x| if let Cell::S(s) = x { s.clone() } else { None }).collect::<Vec<_>>()))
             } else if c.int32 {
                 Arc::new(Int32Array::from(cells.iter().map(|x| if let Cell::I(v) = x { v.map(|v| v as i32) } else { None }).collect::<Vec<_>>()))
@@ -259,12 +263,12 @@ async fn step(t: &mut Tbl, rng: &mut Rng, tags: &mut Tags, st: &mut Stream, sink
         "join" => {
             let name = t.new_name(rng);
             let m = rng.range(2, 3) as i64;
-            t.hist.push(format!("merge on key: {name} = 1000 + k for k % {m} = 0 (and some keys that do not exist)"));
+            t.hist.push(format!("merge on key: {name} = \"j<k>\" for k % {m} = 0 (and a key that does not exist)"));
             let kname = t.cols.iter().find(|c| c.spec == Spec::Key).unwrap().name.clone();
             let mut rk: Vec<i64> = t.keys.iter().cloned().filter(|k| k % m == 0).collect();
             rk.push(t.next_k + 100); // no such row on the left
-            let sch = Arc::new(ArrowSchema::new(vec![Field::new("rk", DataType::Int64, false), Field::new(&name, DataType::Int64, true)]));
-            let b = RecordBatch::try_new(sch.clone(), vec![Arc::new(Int64Array::from(rk.clone())), Arc::new(Int64Array::from(rk.iter().map(|k| 1000 + k).collect::<Vec<_>>()))]).unwrap();
+            let sch = Arc::new(ArrowSchema::new(vec![Field::new("rk", DataType::Int64, false), Field::new(&name, DataType::Utf8, true)]));
+            let b = RecordBatch::try_new(sch.clone(), vec![Arc::new(Int64Array::from(rk.clone())), Arc::new(StringArray::from(rk.iter().map(|k| format!("j{k}")).collect::<Vec<_>>()))]).unwrap();
             let mut ds = t.ds.clone();
             t.ds = guarded(async move {
                 ds.merge(RecordBatchIterator::new(vec![Ok(b)], sch), &kname, "rk").await?;
